@@ -364,7 +364,10 @@ def main(argv=None):
 
 def _out(msg):
     # the worker initialiser may have redirected fd 1 in serial mode; write to the saved fd
-    os.write(_STDOUT_FD, (msg + "\n").encode())
+    try:
+        os.write(_STDOUT_FD, (msg + "\n").encode())
+    except BrokenPipeError:
+        pass
 
 
 _STDOUT_FD = os.dup(1)
